@@ -1,4 +1,5 @@
 P = dict(
+    proofs=["Proof_C19"],
     bin="egv_c19", trace="Trace_C19", level="model_checking",
     mc=[dict(module="MC_C19", quick_cfg="MC_C19.cfg", thorough_cfg="MC_C19_thorough.cfg")],
     drift_checked=True,
